@@ -735,6 +735,14 @@ func (l *lexer) scanOperator(ch rune) (rune, rune) {
 			return ANY_P, l.next()
 		}
 	default:
+		if ch >= utf8.RuneSelf {
+			// No token starts with a non-ASCII character that cannot start an
+			// identifier. Reject it here rather than hand its value to the
+			// parser, where the private use code points U+E002 and up would
+			// be taken for the token numbers of keywords and operators.
+			l.errorf("unexpected character %q", ch)
+			return stopTok, stopTok
+		}
 		return ch, next
 	}
 
